@@ -678,6 +678,7 @@ fn issue_simple(ctx: &Arc<RunCtx>, op: OpId, d: &Obj) {
             // a value on the caller's stack that the closure borrows and mutates: must only be touched between call and return
             let mut frame: [u64; 4] = [CANARY, 0, 0, CANARY];
             rec.inv.store(clock(), ORD);
+            ctx.note_for_firer();
             #[cfg(feature = "hooks")]
             let v = { let _b = ctx.blocked(op, PH_CALL);
                 if via_scheduler(ctx, op) {
@@ -756,6 +757,7 @@ fn poll_then_drop(ctx: &Arc<RunCtx>, op: OpId, mut fut: ResFut<'_>, n: u8) {
     }
     { let _b = ctx.blocked(op, PH_DROPFUT); std::mem::drop(fut); }
     rec.dropped_at.store(clock(), ORD);
+    ctx.note_for_firer();
 }
 
 fn await_blocking(ctx: &Arc<RunCtx>, op: OpId, mut fut: ResFut<'_>) {
@@ -897,7 +899,18 @@ pub fn run_thread(ctx: &Arc<RunCtx>, acts: Vec<TAct>, mortal: Option<Arc<Obj>>) 
             TAct::Checkpoint => { if let Some(h) = ctx.prog.checkpoint_hold { let _b = ctx.blocked(NO_OP, PH_HOLD); ctx.progress(); ctx.holds[h].wait(); } }
             TAct::WaitStart(op) => {
                 let _b = ctx.blocked(op, PH_FIREWAIT);
-                while ctx.recs[op].start.load(ORD) == 0 { thread::park(); }
+                // (a future_sync operation whose future was dropped before its slot came never starts)
+                let cancellable = ctx.prog.ops[op].kind == Kind::FutSync;
+                while ctx.recs[op].start.load(ORD) == 0 && !(cancellable && ctx.recs[op].dropped_at.load(ORD) != 0) { thread::park(); }
+            }
+            TAct::WaitInv(op) => {
+                let _b = ctx.blocked(op, PH_FIREWAIT);
+                while ctx.recs[op].inv.load(ORD) == 0 { thread::park(); }
+                pause(ctx);
+            }
+            TAct::WaitResolved(op) => {
+                let _b = ctx.blocked(op, PH_FIREWAIT);
+                while ctx.recs[op].resolve.load(ORD) == 0 { thread::park(); }
             }
             TAct::WaitRet(op) => {
                 let _b = ctx.blocked(op, PH_FIREWAIT);
@@ -1091,7 +1104,9 @@ pub fn run_firer(ctx: &Arc<RunCtx>, pusher: bool) {
             }
             FAct::WaitStart(op) => {
                 let _b = ctx.blocked(op, PH_FIREWAIT);
-                while ctx.recs[op].start.load(ORD) == 0 { thread::park(); }
+                // (a future_sync operation whose future was dropped before its slot came never starts)
+                let cancellable = ctx.prog.ops[op].kind == Kind::FutSync;
+                while ctx.recs[op].start.load(ORD) == 0 && !(cancellable && ctx.recs[op].dropped_at.load(ORD) != 0) { thread::park(); }
             }
             FAct::Resume(op, use_it) => {
                 {
@@ -1130,7 +1145,7 @@ pub struct Handles {
 }
 
 fn prog_has_waits(prog: &Program) -> bool {
-    let t = |a: &TAct| matches!(a, TAct::WaitStart(_) | TAct::WaitRet(_) | TAct::HandResumer(_));
+    let t = |a: &TAct| matches!(a, TAct::WaitStart(_) | TAct::WaitRet(_) | TAct::WaitInv(_) | TAct::WaitResolved(_) | TAct::HandResumer(_));
     let f = |a: &FAct| matches!(a, FAct::WaitRet(_) | FAct::WaitStart(_) | FAct::Resume(..) | FAct::WaitDropped(_) | FAct::WaitConsumerWaiting(_));
     prog.threads.iter().flatten().any(t) || prog.phases.iter().flat_map(|p| p.threads.iter().flatten()).any(t) || prog.fire.iter().any(f) || prog.pusher.iter().any(f)
 }
